@@ -248,7 +248,7 @@ class Termizer:
         if cn in ("Borrow::borrow", "Deref::deref", "Clone::clone", "Into::into", "From::from",
                   "DerefMut::deref_mut", "BorrowMut::borrow_mut", "Option::copied", "CastableInto::cast",
                   "UpcastableInto::upcast", "DowncastableInto::downcast", "DowncastableFrom::downcast_from", "UpcastableFrom::upcast_from", "CastableFrom::cast_from", "AsRef::as_ref", "AsMut::as_mut",
-                  "Vec::as_slice", "Vec::as_mut_slice", "ToOwned::to_owned") and len(args) == 1:
+                  "Vec::as_slice", "Vec::as_mut_slice", "ToOwned::to_owned", "Vec::into_boxed_slice", "Box::into_vec", "slice::to_vec") and len(args) == 1:
             return args[0]
         if cn in LEN_NAMES:
             return ("call", "len", args)
